@@ -507,9 +507,11 @@ fn check(d: &Disc, case: &mut Case) -> Result<(), Fail> {
             }
             if alive.len() < recs_seen.len() {
                 case.class("some-records-expired");
-                if let Some(n) = name {
-                    lapsed.insert(n.clone());
-                }
+                match name {
+                    Some(n) => lapsed.insert(n.clone()),
+                    // a deeper owner a.<peer>.<service> is reported under the name "a.<peer>"
+                    None => lapsed.insert(owner.strip_suffix(&format!(".{}", service)).unwrap_or(owner).to_string()),
+                };
             }
             if alive.is_empty() {
                 // nothing left of this owner: it is not reported at all
@@ -554,7 +556,13 @@ fn check(d: &Disc, case: &mut Case) -> Result<(), Fail> {
     }
     // soundness: every reported instance is one expected owner
     let firm_reported = reported.iter().filter(|r| !lapsed.contains(&r.unescaped_instance_name())).count();
-    let firm_expected = expected.values().filter(|(n, _)| n.as_ref().map(|n| !lapsed.contains(n)).unwrap_or(true)).count();
+    let firm_expected = expected
+        .iter()
+        .filter(|(owner, (n, _))| {
+            let shown = n.clone().unwrap_or_else(|| owner.strip_suffix(&format!(".{}", service)).unwrap_or(owner).to_string());
+            !lapsed.contains(&shown)
+        })
+        .count();
     // (a deeper owner a.<peer>.<service> is reported under the instance name "a": if a peer called "a" has lapsed
     // records the two cannot be told apart by name and the count makes no claim)
     let a_is_ambiguous = lapsed.contains("a") && expected.values().any(|(n, _)| n.is_none());
@@ -564,7 +572,8 @@ fn check(d: &Disc, case: &mut Case) -> Result<(), Fail> {
         let rname = r.unescaped_instance_name();
         if lapsed.contains(&rname) {
             // a peer with lapsed records: nothing beyond what that peer advertised
-            let full = d.peers.iter().find(|p| p.name == rname).map(summary_of_peer);
+            let peer_name = rname.strip_prefix("a.").unwrap_or(&rname);
+            let full = d.peers.iter().find(|p| p.name == peer_name).map(summary_of_peer);
             let within = full.map(|f| s.0.is_subset(&f.0) && s.1.is_subset(&f.1) && (s.2.is_empty() || s.2 == f.2)).unwrap_or(false);
             ensure!(within || expected.values().any(|(_, e)| *e == s), "c15:mixed-instance", "reported instance {:?} {:?} holds something its peer never advertised", rname, s);
             ensure!(rname != OWN, "c15:own-reported", "the discoverer's own instance is reported");
